@@ -412,6 +412,9 @@ errcode_t profile_get_boolean(profile_t p, const char *n, const char *s, const c
 #if STOP_AT == 7
 	vf_finish(0, 0);
 #endif
+#if STOP_AT == 5
+	{ static int calls; if (++calls >= 2) vf_finish(0, 0); }
+#endif
 	return 0;
 }
 errcode_t profile_get_string(profile_t p, const char *n, const char *s, const char *ss, const char *def, char **ret)
